@@ -3,16 +3,25 @@ open Util
 
 (* C19 case lines (see harness/c19.go):
      F <cfg> # <steps> # <dropped emitted cap len> # <processed ids>   forced schedule: model replay + checker
+       (<cfg> = strat cap max minInc gnum gden tnum tden blockTimeoutNs; a step `U what` = the harness observed
+        something unexpected there and let the instance run freely: the replay stops with a diff, the end state is judged)
      R <cfg> # <rows per producer> # <dropped input_count cap> # <processed ids>   random run: checker only
    The model replayed is the one of the repaired code (ig_locked_recv = true). *)
 
-let strat_of = function "0" -> IgDrop | "1" -> IgBlock | "2" -> IgBlockTO | _ -> IgExpand
+(* the strategy the configuration selects is computed by the extracted model (ig_strat_of: "block" is the
+   timer-free program exactly for BlockTimeout <= 0); bto = OverflowConfig.BlockTimeout in nanoseconds *)
+let strat_of st bto = match st with
+  | "0" -> ig_strat_of IgNDrop (Win.zs bto)
+  | "1" -> ig_strat_of IgNBlock (Win.zs bto)
+  | "2" -> IgBlockTO  (* lines written before the timeout became part of the configuration *)
+  | _ -> ig_strat_of IgNExpand (Win.zs bto)
 let nat s = nat_of_int (int_of_string s)
 let ni = int_of_nat
 
-let cfg_of = function
-  | [st; cap; mx; mi; gn; gd; tn; td] ->
-      { ig_strat = strat_of st; ig_cap0 = nat cap; ig_max = nat mx; ig_mininc = nat mi; ig_gnum = nat gn;
+let rec cfg_of = function
+  | [st; cap; mx; mi; gn; gd; tn; td] -> cfg_of [st; cap; mx; mi; gn; gd; tn; td; "0"]
+  | [st; cap; mx; mi; gn; gd; tn; td; bto] ->
+      { ig_strat = strat_of st bto; ig_cap0 = nat cap; ig_max = nat mx; ig_mininc = nat mi; ig_gnum = nat gn;
         ig_gden = nat gd; ig_tnum = nat tn; ig_tden = nat td; ig_locked_recv = true }
   | _ -> failwith "cfg"
 
@@ -55,6 +64,10 @@ let replay (c : igcfg) (toks : string list) : igst * bool =
         if ig_step c !s (step_of name (nat p)) <> None then
           raise (Diff (Printf.sprintf "step %d: %s %s observed blocked but enabled in the model" !pos name p));
         go r
+    | "U" :: what :: _ ->
+        (* the harness saw something no forced schedule allows (a wait timed out, a call that must block returned
+           ...) and stopped forcing; the end state that follows is still judged by the checker *)
+        incr pos; raise (Diff (Printf.sprintf "step %d: unexpected observation on the implementation: %s" !pos what))
     | "=" :: len :: cap :: dropped :: nproc :: r ->
         incr pos;
         let m = Printf.sprintf "%d %d %d %d" (ni (ig_len !s)) (ni (ig_cap !s)) (ni !s.ig_dropped) (List.length !s.ig_processed) in
